@@ -104,6 +104,7 @@ type ioCtl struct {
 	opens  map[string]int
 	closes map[string]int
 	reads  []readRec
+	hold   func() // run once, on the goroutine of the next write call, before that write takes effect
 }
 
 type readRec struct {
@@ -111,7 +112,19 @@ type readRec struct {
 	off, n int64
 }
 
-func (c *ioCtl) Before(op *h.StoreOp) error { return nil }
+func (c *ioCtl) Before(op *h.StoreOp) error {
+	if op.Kind != "write" {
+		return nil
+	}
+	c.mu.Lock()
+	f := c.hold
+	c.hold = nil
+	c.mu.Unlock()
+	if f != nil {
+		f()
+	}
+	return nil
+}
 func (c *ioCtl) After(op *h.StoreOp, err error) {
 	c.mu.Lock()
 	defer c.mu.Unlock()
@@ -365,6 +378,7 @@ func (x *executor) Run(c *Case) *Obs {
 	}
 	canonical := c.Tok == "whole"
 	var dones []chan error
+	var overlapLate chan struct{}
 	for g := 1; g <= groups; g++ {
 		var batch []map[string]any
 		for i, r := range c.Rows {
@@ -381,6 +395,26 @@ func (x *executor) Run(c *Case) *Obs {
 		}
 		if len(batch) == 0 {
 			continue
+		}
+		// the last flush of the case is overtaken by a whole Merge of the files written so far: the flush worker is held at
+		// its first write to the store until that Merge has returned (Merge runs on its caller's goroutine, nothing
+		// serialises it against a flush)
+		if c.Dims.Overlap && g == groups && groups >= 3 {
+			io.mu.Lock()
+			io.hold = func() {
+				mdone := make(chan struct{})
+				go func() {
+					defer close(mdone)
+					eng.Merge(context.Background())
+				}()
+				select {
+				case <-mdone:
+				case <-time.After(5 * time.Second):
+					// the Merge waits for something the held flush owns: let the flush go on, the Merge ends after it
+					overlapLate = mdone
+				}
+			}
+			io.mu.Unlock()
 		}
 		// split the group over one or two IngestRows calls
 		cut := len(batch)
@@ -425,6 +459,12 @@ func (x *executor) Run(c *Case) *Obs {
 		}
 		dones = dones[:0]
 	}
+	if overlapLate != nil {
+		<-overlapLate
+	}
+	io.mu.Lock()
+	io.hold = nil
+	io.mu.Unlock()
 	h.Must(eng.Stop(context.Background()), "stop")
 
 	q := c.Q.RealQuery()
